@@ -84,3 +84,95 @@ theorem ptcFrom_closed (v infl : Rat) (n : Nat) (year : Nat) (prev : Rat)
 #print axioms base_mono
 #print axioms ptcFrom_closed
 end GeoVerif
+
+namespace GeoVerif
+
+theorem base_start (p0 p1 : Rat) (s : Nat) (r : Rat) (h : p0 ≤ p1) : basePrice p0 p1 s r 0 = p0 := by
+  rw [basePrice_eq_min]
+  by_cases hs : s ≤ 0
+  · have : s = 0 := by omega
+    subst this; simp [h]
+  · simp [hs, h]
+
+theorem base_before_start (p0 p1 : Rat) (s : Nat) (r : Rat) (i : Nat) (hi : i < s) :
+    basePrice p0 p1 s r i = min p0 p1 := by
+  rw [basePrice_eq_min]
+  have : ¬ s ≤ i := by omega
+  simp [this]
+
+theorem base_linear_segment (p0 p1 : Rat) (s : Nat) (r : Rat) (i : Nat) (hs : s ≤ i)
+    (hcap : p0 + ((i + 1 - s : Nat) : Rat) * r ≤ p1) (hcap' : p0 + ((i - s : Nat) : Rat) * r ≤ p1) :
+    basePrice p0 p1 s r (i + 1) - basePrice p0 p1 s r i = r := by
+  rw [basePrice_eq_min, basePrice_eq_min]
+  have hs' : s ≤ i + 1 := by omega
+  simp only [hs, hs', if_true]
+  rw [min_eq_left hcap, min_eq_left hcap']
+  have : ((i + 1 - s : Nat) : Rat) = ((i - s : Nat) : Rat) + 1 := by
+    have : i + 1 - s = (i - s) + 1 := by omega
+    rw [this]; push_cast; ring
+  rw [this]; ring
+
+theorem ptcFrom_length (v infl : Rat) (adj : Bool) (n : Nat) (prev : Rat) (year : Nat) :
+    (ptcFrom v infl adj n prev year).length = n := by
+  induction n generalizing prev year with
+  | zero => simp [ptcFrom]
+  | succ m ih => simp [ptcFrom, ih]
+
+theorem ptcFrom_flat (v infl : Rat) (n : Nat) (prev : Rat) (year : Nat) (k : Nat) (hk : k < n) :
+    (ptcFrom v infl false n prev year).getD k 0 = v := by
+  induction n generalizing prev year k with
+  | zero => omega
+  | succ m ih =>
+    unfold ptcFrom
+    cases k with
+    | zero => simp
+    | succ k' =>
+      simp only [List.getD_cons_succ]
+      exact ih _ _ k' (by omega)
+
+theorem ptcModel_length (L dur : Nat) (v infl : Rat) (adj : Bool) (hd : dur ≤ L) :
+    (ptcModel L dur v adj infl).length = L := by
+  simp [ptcModel, ptcFrom_length]; omega
+
+theorem ptcModel_closed (L dur : Nat) (v infl : Rat) (adj : Bool) (hd : dur ≤ L) (i : Nat) (hi : i < L) :
+    (ptcModel L dur v adj infl).getD i 0 =
+      if i < dur then (if adj then v * (1 + infl) ^ i else v) else 0 := by
+  unfold ptcModel
+  by_cases h : i < dur
+  · simp only [h, if_true]
+    rw [List.getD_eq_getElem?_getD, List.getElem?_append_left (by rw [ptcFrom_length]; exact h),
+      ← List.getD_eq_getElem?_getD]
+    cases adj with
+    | true =>
+      simp only [if_true]
+      have := ptcFrom_closed v infl dur 0 0 (by intro h0; omega) i h
+      simpa using this
+    | false =>
+      simp only [Bool.false_eq_true, if_false]
+      exact ptcFrom_flat v infl dur 0 0 i h
+  · simp only [h, if_false]
+    rw [List.getD_eq_getElem?_getD, List.getElem?_append_right (by rw [ptcFrom_length]; omega)]
+    simp only [List.getElem?_replicate]
+    split <;> rfl
+
+theorem padFront_eq (cy : Nat) (xs : List Rat) : padFront cy xs = List.replicate cy 0 ++ xs := by
+  induction cy generalizing xs with
+  | zero => simp [padFront]
+  | succ n ih =>
+    simp only [padFront, ih]
+    rw [List.replicate_succ']
+    simp
+
+theorem padFront_lt (cy : Nat) (xs : List Rat) (i : Nat) (hi : i < cy) : (padFront cy xs).getD i 0 = 0 := by
+  rw [padFront_eq, List.getD_eq_getElem?_getD, List.getElem?_append_left (by simpa using hi)]
+  simp [hi]
+
+theorem padFront_ge (cy : Nat) (xs : List Rat) (i : Nat) : (padFront cy xs).getD (cy + i) 0 = xs.getD i 0 := by
+  rw [padFront_eq, List.getD_eq_getElem?_getD, List.getElem?_append_right (by simp)]
+  simp [List.getD_eq_getElem?_getD]
+
+theorem capexAdjust_zero (ccap fees inc gr : Rat) (b : Bool) :
+    capexAdjust ccap 0 b fees inc gr = ccap + fees - inc - gr := by
+  cases b <;> simp [capexAdjust]
+
+end GeoVerif
